@@ -409,9 +409,9 @@ Proof.
   destruct (r_val r); cbn [fst].
   - split.
     + apply notify_all_consistent. eapply consistent_ext; [| | |exact Hc]; reflexivity.
-    + eapply all_read_ext; [|exact Ha]. destruct (notify_all_spec (notified (kind_of chain (r_sh r)) (r_segs r))
+    + eapply all_read_ext; [|exact Ha]. destruct (notify_all_spec (notified (kind_of r) (r_segs r))
         (with_val_keys s (set_at (st_val s) (r_lens r) new)
-           match kind_of chain (r_sh r) with
+           match kind_of r with
            | WKeyed => km_update (fst kc) (snd kc) (r_segs r) (keys_of new) (r_keys r)
            | _ => r_keys r
            end)) as [A _]. rewrite A. reflexivity.
@@ -632,13 +632,13 @@ Theorem ancestor_reader_queued_first n s p e1 e2 r1 r2 :
   exists q1 q2, st_queue (notify_all s (notified WField p)) = q1 ++ q2 /\ In e1 q1 /\ ~ In e2 q1 /\ In e2 q2.
 Proof.
   intros Hc Hq R1 R2 A1 A2 Hlen.
-  assert (P1 : wake_pos p r1 = Some (length r1)) by (rewrite wake_pos_spec, A1; reflexivity).
+  assert (P1 : exists i1, wake_pos p r1 = Some i1).
+  { apply wake_pos_some, notified_iff_related. right. exact A1. }
   assert (P2 : exists i2, wake_pos p r2 = Some i2).
-  { rewrite wake_pos_spec. destruct (is_prefix r2 p) eqn:E; [eauto|]. destruct A2 as [A2|A2]; [discriminate|].
-    rewrite A2. eauto. }
-  destruct P2 as [i2 P2].
+  { apply wake_pos_some, notified_iff_related. destruct A2 as [A2|A2]; [right | left]; exact A2. }
+  destruct P1 as [i1 P1]. destruct P2 as [i2 P2].
   destruct (ancestors_before_descendants p r1 r2 _ _ P1 P2 ltac:(lia)) as [_ Hs].
-  apply (earlier_position_queued_first n s WField p e1 e2 r1 r2 (length r1) i2); auto.
+  apply (earlier_position_queued_first n s WField p e1 e2 r1 r2 i1 i2); auto.
 Qed.
 
 (** Patch::patch notifies triggers_for_path of every changed leaf: it wakes exactly the
@@ -734,4 +734,64 @@ Example keyed_reader_follows_key_refuted :
   let v' := Lst [Lst [it 9%Z 90%Z; it 8%Z 80%Z; it 7%Z 70%Z]] in
   let s := after sh [(false, [Fld 0; Key 7%Z])] [] [] v [HSet [] v'] in
   r_val (fst (walk (root_reached sh s) [Fld 0; Key 7%Z] 0)) = Some (it 9%Z 90%Z).
+Proof. vm_compute. reflexivity. Qed.
+
+(** ---- order among readers of which one is an ancestor of the other (open finding F-C16-g) ---- *)
+
+Lemma proper_prefix_length r1 r2 : is_prefix r1 r2 = true -> r1 <> r2 -> length r1 < length r2.
+Proof.
+  intros H Hne. apply is_prefix_exists in H as [c ->]. rewrite app_length.
+  destruct c; [rewrite app_nil_r in Hne; congruence | cbn [length]; lia].
+Qed.
+
+(** except in the known class (KnownClass: the written field is a proper ancestor of both
+    readers), the reader of the ancestor is queued before the reader of the descendant *)
+Theorem ancestor_first_except_known n s p e1 e2 r1 r2 :
+  consistent n s -> st_queue s = [] -> reads s e1 [r1] -> reads s e2 [r2] ->
+  is_prefix r1 r2 = true -> r1 <> r2 -> wakes p r1 = true -> wakes p r2 = true ->
+  ~ (is_prefix p r1 = true /\ p <> r1) ->
+  exists q1 q2, st_queue (notify_all s (notified WField p)) = q1 ++ q2 /\ In e1 q1 /\ ~ In e2 q1 /\ In e2 q2.
+Proof.
+  intros Hc Hq R1 R2 Hpre Hne W1 W2 Hknown.
+  assert (A1 : is_prefix r1 p = true).
+  { apply notified_iff_related in W1. destruct W1 as [W1|W1]; [|exact W1].
+    destruct (list_eq_dec Nat.eq_dec p r1) as [->|Hd]; [apply is_prefix_refl|].
+    exfalso. apply Hknown. split; assumption. }
+  apply (ancestor_reader_queued_first n s p e1 e2 r1 r2 Hc Hq R1 R2 A1).
+  - apply notified_iff_related in W2. destruct W2 as [W2|W2]; [right | left]; exact W2.
+  - apply proper_prefix_length; assumption.
+Qed.
+
+(** the store's own guard (children, this, children): readers of the store first *)
+Lemma wake_pos_store r : wake_pos_k WRoot [] r = match r with [] => Some 0 | _ :: _ => Some 1 end.
+Proof.
+  unfold wake_pos_k. cbn [notified]. destruct r as [|x r]; [reflexivity|].
+  cbn [first_hit].
+  assert (H1 : trig_in (Children []) (track_field (x :: r)) = false).
+  { apply not_true_is_false. intros H. apply trig_in_In, in_track_field in H.
+    destruct H as [[q [H _]]|H]; discriminate. }
+  assert (H2 : trig_in (This []) (track_field (x :: r)) = true).
+  { apply trig_in_In, in_track_field. left. exists []. split; reflexivity. }
+  rewrite H1, H2. reflexivity.
+Qed.
+
+Theorem store_reader_queued_first n s e1 e2 r2 :
+  consistent n s -> st_queue s = [] -> reads s e1 [[]] -> reads s e2 [r2] -> r2 <> [] ->
+  exists q1 q2, st_queue (notify_all s (notified WRoot [])) = q1 ++ q2 /\ In e1 q1 /\ ~ In e2 q1 /\ In e2 q2.
+Proof.
+  intros Hc Hq R1 R2 Hne.
+  apply (earlier_position_queued_first n s WRoot [] e1 e2 [] r2 0 1 Hc Hq R1 R2).
+  - apply wake_pos_store.
+  - rewrite wake_pos_store. destruct r2; [congruence | reflexivity].
+  - lia.
+Qed.
+
+(** the known class is inhabited: readers created in the order [store.m.x; store.m]; writing
+    the store queues the reader of the descendant store.m.x (0) before the reader of store.m (1) *)
+Example ancestor_first_refuted :
+  let sh := SStruct [SInt; SStruct [SInt; SInt]] in
+  let v := Lst [Num 1%Z; Lst [Num 2%Z; Num 3%Z]] in
+  let readers := [(false, [Fld 1; Fld 0]); (false, [Fld 1])] in
+  let s := after sh readers [] [] v [] in
+  st_queue (fst (do_set sh ([], []) s [] (Lst [Num 4%Z; Lst [Num 5%Z; Num 6%Z]]))) = [0; 1].
 Proof. vm_compute. reflexivity. Qed.
